@@ -424,6 +424,10 @@ pub fn base_trace(ctx: &RunCtx, out: &mut Outcome) {
     if ctx.trace.held_moves > 0 {
         out.fault("internal_point_held_while_other_actor_moved", ctx.trace.held_moves as u64);
     }
+    if ctx.trace.real_pause_ms > 0 {
+        out.fault("child_held_alive_for_real_seconds", 1);
+        out.sim_ms += ctx.trace.real_pause_ms;
+    }
     if ctx.trace.until_used {
         out.fault("compressor_threads_gone_before_later_shutdown_send", 1);
     }
